@@ -36,19 +36,21 @@ class C06(ObjCheck):
             "configured umask. Non-trivial = a private object with a non-empty byte-string attribute stored through a path "
             "other than C_CreateObject, or a PIN change with private objects present.")
     assumptions = ["values shared with a public object of the same history are excluded from the plaintext scan (they are "
-                   "legitimately on disk in clear)", "file backend (the decoder and the raw scan read the token directory)"]
-    essential_labels = {"dir_scans": 5000, "private_values_scanned": 5000, "perm_checked_paths": 2000}
+                   "legitimately on disk in clear)", "both backends: the raw scan reads every file below the token directory (for SQLite: the database file and its "
+                   "journal, free pages included); the decoders are py/vlib/store.py (file format) and its sqlite3-based counterpart"]
+    essential_labels = {"dir_scans": 4000, "private_values_scanned": 2000, "perm_checked_paths": 2000, "backend_db": 100, "backend_file": 300}
 
     def setup(self, ctx):
         ctx.shared["ref"] = Ref()
-        ctx.shared["tpl"] = Template(ctx.env, ntokens=2)
+        ctx.shared["tpls"] = {b: Template(ctx.env, ntokens=2, backend=b) for b in ("file", "db")}
+        ctx.shared["tpl"] = ctx.shared["tpls"]["file"]
         ctx.shared["stages"] = {}
 
-    def stage_for(self, ctx, um):
-        st_ = ctx.shared["stages"].get(um)
+    def stage_for(self, ctx, um, backend="file"):
+        st_ = ctx.shared["stages"].get((um, backend))
         if st_ is None:
-            st_ = Stage(ctx.env, ctx.shared["tpl"], reuse=not ctx.replaying, umask=um)
-            ctx.shared["stages"][um] = st_
+            st_ = Stage(ctx.env, ctx.shared["tpls"][backend], reuse=not ctx.replaying, umask=um)
+            ctx.shared["stages"][(um, backend)] = st_
         return st_
 
     def budget(self, tier):
@@ -57,16 +59,23 @@ class C06(ObjCheck):
     def strategy(self, tier):
         from hypothesis import strategies as st
         body = program_st(WEIGHTS, self.budget(tier)["maxlen"], classes=CLASSES, prefix=[("open", 0, 1), ("login", 0, "USER")])
-        return st.tuples(st.sampled_from(UMASKS), body).map(lambda t: {"umask": t[0], "ops": t[1]})
+        return st.tuples(st.sampled_from(UMASKS), body, st.sampled_from(["file", "file", "db"])).map(lambda t: {"umask": t[0], "ops": t[1], "backend": t[2]})
 
     def run_program(self, ctx, prog):
         um = prog["umask"]
-        stage = self.stage_for(ctx, um)
+        backend = prog.get("backend", "file")
+        if backend == "db" and ctx.kf.entry("KF-C20-01") and ctx.kf.entry("KF-C20-01")["status"].startswith("open"):
+            # known finding excluded by construction (as in C05): C_CopyObject is unusable on the SQLite backend
+            n0 = len(prog["ops"])
+            prog = dict(prog, ops=[op for op in prog["ops"] if op[0] != "copy"])
+            ctx.label("excluded_db_copy_ops", n0 - len(prog["ops"]))
+        ctx.label("backend_" + backend)
+        stage = self.stage_for(ctx, um, backend)
         w = stage.fresh(initialize=False)
         w.umask(mask=0)
         r = w.C_Initialize()
         stage.initialised = r["rv"] == 0
-        tokens = copy.deepcopy(ctx.shared["tpl"].tokens)
+        tokens = copy.deepcopy(ctx.shared["tpls"][backend].tokens)
         world = World(ctx, w, tokens, prog["ops"], stage=stage, ref=ctx.shared["ref"], check_views="never", judge_access=False)
         ref = ctx.shared["ref"]
         tokendir = stage.sb.tokendir
